@@ -249,11 +249,73 @@ def specAccept (bs : List Slots) (msgs : List Msg) : Except RErr (List Slots) :=
   else if calls.any (fun c => bs.any (fun sl => slotPending sl c)) then .error .seenId
   else .ok (if calls.isEmpty then bs else bs ++ [calls.map (fun c => (c, none))])
 
+/-- `ioConn.Read` as the specification sees it: the same frame handling, with `specAccept` in the
+place of the tracking loop and `addBatch`. -/
+def specRead (sp : List Slots) (s : IOState) : List Slots × ReadOut :=
+  match s.queue with
+  | m :: _ => (sp, .msg m)
+  | [] =>
+    match s.wire with
+    | [] => (sp, .err .eof)
+    | raw :: _ =>
+      match readBatch raw with
+      | .error e => (sp, .err e)
+      | .ok (msgs, batch) =>
+        if batch && s.noBatch then (sp, .err .noBatching) else
+        match msgs with
+        | [] => (sp, .err .emptyBatch)
+        | m0 :: _ =>
+          if batch then
+            match specAccept sp msgs with
+            | .error e => (sp, .err e)
+            | .ok sp' => (sp', .msg m0)
+          else (sp, .msg m0)
+
 /-- what the writer side shows of an `opWrite` result, as messages -/
 def WriteOut.matches : WriteOut → SOut → Bool
   | .nothing, .nothing => true
   | .single v, .single m => v == encodeMsg m
   | .array vs, .array ms => vs == ms.map encodeMsg
   | _, _ => false
+
+
+/-- every filled slot holds a response bearing the slot's call id -/
+def SlotsOK (sl : Slots) : Prop := ∀ p ∈ sl, ∀ m, p.2 = some m → m.id = p.1
+
+
+/-! ## runs -/
+
+/-- witnesses used by the examples -/
+def wNotif : JVal := encodeMsg (.request .none [110] none)
+def wCall5 : JVal := encodeMsg (.request (.int 5) [112] none)
+def resp5 : Msg := .response (.int 5) (some (.obj [])) none
+
+
+
+/-- The labels of the `ioConn` machine: a frame arrives on the stream, the negotiated protocol
+version changes (batching allowed or not), the connection calls `Read`, the connection calls
+`Write` (a response of a finished handler, or an outgoing request/notification). -/
+inductive IOOp where
+  | feed (raw : JVal)
+  | setNoBatch (b : Bool)
+  | read
+  | write (m : Msg)
+deriving Repr, Inhabited
+
+/-- One label on the model and on the specification side by side; the Boolean says whether what the
+model did is what the specification prescribes (`read`: same result; `write`: the encoded
+specification output). -/
+def stepBoth (st : IOState × List Slots) : IOOp → (IOState × List Slots) × Bool
+  | .feed raw => (({ st.1 with wire := st.1.wire ++ [raw] }, st.2), true)
+  | .setNoBatch b => (({ st.1 with noBatch := b }, st.2), true)
+  | .read => (((opRead false st.1).1, (specRead st.2 st.1).1), decide ((opRead false st.1).2 = (specRead st.2 st.1).2))
+  | .write m => (((opWrite st.1 m).1, (specWrite st.2 m).1), (opWrite st.1 m).2.matches (specWrite st.2 m).2)
+
+def runBoth (st : IOState × List Slots) : List IOOp → (IOState × List Slots) × Bool
+  | [] => (st, true)
+  | op :: t =>
+    let r := stepBoth st op
+    let r' := runBoth r.1 t
+    (r'.1, r.2 && r'.2)
 
 end Wire
